@@ -374,10 +374,10 @@ Proof.
   rewrite H by auto. reflexivity.
 Qed.
 
-Lemma cinv_select : forall cfg cs cs' evs, 0 <= c_low cfg -> CInv cfg cs ->
+Lemma cinv_select : forall cfg cs cs' evs, CInv cfg cs ->
   cstep cfg cs ASelect = Some (cs', evs) -> CInv cfg cs'.
 Proof.
-  intros cfg cs cs' evs Hlow H Hs. cbn [cstep] in Hs. unfold select_step in Hs.
+  intros cfg cs cs' evs H Hs. cbn [cstep] in Hs. unfold select_step in Hs.
   destruct (cs_ph cs) as [| | |todo tg|] eqn:Eph; try discriminate.
   assert (Hidle : is_idle (cs_ph cs) = false) by (rewrite Eph; reflexivity).
   pose proof (ci_inv _ _ H) as Hinv. pose proof (ci_nodup _ _ H) as Hnd. pose proof (ci_added _ _ H) as Hadd.
@@ -516,10 +516,10 @@ Proof.
 Qed.
 
 (* ---- every step, every schedule ------------------------------------------------------------------- *)
-Lemma cinv_step : forall cfg cs a cs' evs, 0 <= c_low cfg -> CInv cfg cs ->
+Lemma cinv_step : forall cfg cs a cs' evs, CInv cfg cs ->
   cstep cfg cs a = Some (cs', evs) -> CInv cfg cs'.
 Proof.
-  intros cfg cs a cs' evs Hlow H Hs. destruct a.
+  intros cfg cs a cs' evs H Hs. destruct a.
   - exact (cinv_aop cfg cs o cs' evs H Hs).
   - apply (cinv_clock_tick cfg cs AClock cs' evs H); [left; reflexivity|exact Hs].
   - apply (cinv_clock_tick cfg cs (ATickPeer p) cs' evs H); [right; left; exists p; reflexivity|exact Hs].
@@ -529,23 +529,23 @@ Proof.
   - exact (cinv_snapend cfg cs cs' evs H Hs).
   - cbn [cstep] in Hs. destruct (cs_ph cs); try discriminate. inversion Hs; subst. exact H.
   - exact (cinv_sortend cfg cs perm cs' evs H Hs).
-  - exact (cinv_select cfg cs cs' evs Hlow H Hs).
+  - exact (cinv_select cfg cs cs' evs H Hs).
   - exact (cinv_finish cfg cs cs' evs H Hs).
 Qed.
 
-Lemma cinv_run : forall cfg sched cs, 0 <= c_low cfg -> CInv cfg cs -> CInv cfg (fst (crun cfg cs sched)).
+Lemma cinv_run : forall cfg sched cs, CInv cfg cs -> CInv cfg (fst (crun cfg cs sched)).
 Proof.
-  intros cfg. induction sched as [|a r IH]; intros cs Hlow H; cbn [crun]; [exact H|].
+  intros cfg. induction sched as [|a r IH]; intros cs H; cbn [crun]; [exact H|].
   destruct (cstep cfg cs a) as [[cs' ev]|] eqn:Es.
-  - specialize (IH cs' Hlow (cinv_step cfg cs a cs' ev Hlow H Es)). destruct (crun cfg cs' r). exact IH.
+  - specialize (IH cs' (cinv_step cfg cs a cs' ev H Es)). destruct (crun cfg cs' r). exact IH.
   - apply IH; assumption.
 Qed.
 
 (* what is left on the live candidates when the trim closes its selection *)
 Lemma phi_at_close : forall cfg cs, CInv cfg cs -> cs_ph cs = TClose ->
-  phi (cs_s cs) (cs_gstart cs) (cs_sel cs) (cs_cands cs) <= c_low cfg + cs_added1 cs + cs_added2 cs.
+  phi (cs_s cs) (cs_gstart cs) (cs_sel cs) (cs_cands cs) <= Z.max 0 (c_low cfg) + cs_added1 cs + cs_added2 cs.
 Proof.
-  intros cfg cs H Eph. destruct (ci_c _ _ H (c_low cfg)) as [HD HU]; [unfold cbound; rewrite Eph; reflexivity|].
+  intros cfg cs H Eph. destruct (ci_c _ _ H (Z.max 0 (c_low cfg))) as [HD HU]; [unfold cbound; rewrite Eph; reflexivity|].
   pose proof (phi_le (cs_s cs) (cs_gstart cs) (cs_sel cs) (cs_cands cs)). lia.
 Qed.
 
